@@ -38,6 +38,9 @@ def cases(ctx):
             N2 = gen.random_nfa(rng, 4, ['a', 'b'], e2, prefix='p', live=True)
         if set(N1['Q']) & set(N2['Q']):
             continue
+        if i % 15 == 7:     # 11-12 numbered states q0 .. q11 in the first operand
+            N1 = gen.numbered_nfa(rng)
+            N2 = gen.random_nfa(rng, 3, ['a', 'b'], N1['eps'], prefix='p', live=True)
         if i % 9 == 4:      # immutable containers (frozenset) in the fields of an operand
             k = rng.choice([0, 1, 2])
             if k in (0, 2):
